@@ -21,7 +21,8 @@ SINK = re.compile(
     r"(?:^|::)(save_\w+|delete_\w*|put\w*|commit|sync\w*|flush|rewind\w*|apply_\w+|push\w*|prune\w*|remove\w*|rename|set_len|write_\w+|write_all|truncate|"
     r"check_compact|compact|reconcile\w*|evict\w*|cache_\w+|add_to_\w+|add_block\w*|update_\w+|init_\w+|replace\w*|discard|retain|clear|insert|extend|append|"
     r"extending|header_extending|force_rollback|set_\w+|reset_\w+|copy_from_slice|clone_from_slice|with_capacity|from_elem|reserve|advance|split_to|"
-    r"block_accepted|tx_accepted|stem_tx_accepted|send\w*|broadcast\w*|ban_peer|resize|sync_all|remove_file|remove_dir_all|create)$")
+    r"block_accepted|tx_accepted|stem_tx_accepted|send\w*|broadcast\w*|ban_peer|resize|sync_all|remove_file|remove_dir_all|create|"
+    r"sort\w*|dedup\w*|reverse|drain|swap\w*|fetch_add|fetch_sub|store|randomize)$")
 NOISE = re.compile(r"^(core::fmt|log::|alloc::fmt|core::ops::try_trait|core::ops::deref|core::clone|core::convert|core::borrow|alloc::string|alloc::str|core::hint|alloc::borrow)")
 WS = re.compile(r"^<?grin")
 
